@@ -18,7 +18,7 @@ MUTS = [
  ("H3 harmless: while len(queue) in edge BFS", T+"edge_sp.py", "        while len(queue)>0:\n            v,nv = queue.popleft()", "        while len(queue):\n            v,nv = queue.popleft()"),
 ]
 sel = sys.argv[1:]
-out = open("/verif/scratch_c10/mutation_results.txt", "a")
+out = open("/verif/vf/dev/c10_mutation_results.txt", "a")
 for name, rel, a, b in MUTS:
     if sel and not any(name.startswith(s) for s in sel):
         continue
